@@ -150,6 +150,8 @@ def build_dask(spec, pdf=None):
         kw = {}
         if divisions is not None:
             kw["divisions"] = divisions
+        if lay.get("prefix"):
+            kw["prefix"] = lay["prefix"]
         return dx.from_delayed(parts, meta=pdf.iloc[:0], **kw)
     if kind == "divisions":
         # FromPandasDivisions
